@@ -52,7 +52,7 @@ ASSUMPTIONS = [
 
 
 def run_lean_unit(lines):
-    return core.run_lean(lines, main="Driver/Main_State.lean")
+    return core.run_lean(lines)
 
 
 # ----------------------------------------------------------------------------- model recipes (deterministic)
